@@ -40,6 +40,23 @@ def run(ck):
     laws = [l for l in laws if sum(1 for x in l["num"] if x > 0) >= 2]
     laws.sort(key=lambda l: hashlib.md5(json.dumps(l, sort_keys=True).encode()).hexdigest())
     laws = laws[:60 if q else 1200]
+    # the same laws with every weight scaled up so that the total sits just below / far below 2^32
+    # (ScaleInvariant: only ratios matter) - arithmetic at the 32-bit boundary
+    def total(law):
+        c = law["case"]
+        if c["op"] == "select":
+            def w(t):
+                return t["w"] if t["t"] == "leaf" else w(t["a"]) + w(t["b"])
+            return w(c["tree"])
+        return sum(c["ws"])
+    scaled = []
+    for i, l in enumerate(laws[:24 if q else 300]):
+        tot = total(l)
+        big = (2 ** 32 - 1) // tot                  # the largest factor for which the sum still fits
+        for sc in ((big, 2 ** 29) if i % 2 == 0 else (2 ** 30 // tot * 1 or 1, big - 1)):
+            if sc >= 1 and (l["case"]["op"] != "select" or tot * sc <= 2 ** 32 - 1):
+                scaled.append(dict(l, scale=sc))
+    laws = laws + scaled
     N = 60000 if q else 1000000
     rows = selcheck.law_rows(ck, "wt-law", laws, N, "weighted")
     cells = selcheck.check_rows(ck, rows, "weighted",
